@@ -60,6 +60,21 @@ CHECKS = {
          "Idempotence, consent-gating, joiner == inviter state and non-interference with existing groups are checked on every edge; later events are compared differentially with and without the invitation.",
          "Quick tier offers accept/decline only while the stored welcome is pending and caps graphs at 3000 states; thorough lifts both.",
          "3/C16"),
+ "C09": ("E2 storex", "model_checking",
+         "bounded-exhaustive breadth-first search over every sequence of storage operations of the snapshot alphabet (2 groups, 2 snapshot names, writes inside and outside the snapshot scope incl. OpenMLS writes) from the empty store and from a populated store; memory, SQLite and a plain reference model compared on every return value and on the whole read surface",
+         "Every operation sequence up to the tier's depth is executed on both real backends; the reference model copies the group-scoped state at create and restores it at rollback, so any read that differs inside or outside the scope is reported.",
+         "Depth 3 (quick) / 5 (thorough); sequences reaching the same reference-model state are merged from depth 1 (quick) or 3 (thorough); snapshot operations on groups without a record are outside the contract and not run.",
+         "3/C09"),
+ "C10": ("E2 storex", "model_checking",
+         "bounded-exhaustive breadth-first search over every sequence of storage operations of four colliding alphabets; memory == SQLite == reference model on every return value and every read method with every pagination triple",
+         "All sequences up to the tier's depth over small key pools (forced overwrites, ties on both timestamps, id reuse across groups, missing groups) run on both real backends and a plain reference model.",
+         "Inputs stay inside both backends' documented limits; answers the contract leaves open are compared as sets; depth 3 (quick) / 4 (thorough).",
+         "3/C10"),
+ "C18": ("E2 storex + E1 invariant", "model_checking",
+         "bounded-exhaustive operation sequences over a message alphabet with ties on created_at and processed_at: both backends' listings, every (limit, offset, sort) and last_message against the documented total order; every store sequence through update_last_message_if_newer; pointer == head of valid messages as a state invariant on E1 graphs",
+         "Every sequence up to the tier's depth; pages are compared for every limit/offset incl. 0, MAX and MAX+1.",
+         "Pointer after invalidation is judged on mdk-core histories (E1), not on raw storage sequences.",
+         "3/C18"),
 }
 
 PENDING_REASON = "check not built yet in this revision (see DESIGN.md section 7 build order); will be claimed when its engine lands"
